@@ -171,8 +171,14 @@ def names_of(p):
     t = p[0]
     if t == "name" or t == "splat":
         return [p[1]]
-    if t in ("_", "lit", "literally", "cmphole"):
+    if t in ("_", "lit", "literally", "cmphole", "neglit"):
         return []
+    if t == "fraclit":
+        return [p[1]]
+    if t == "conslit":
+        return [p[2]]
+    if t == "snoclit":
+        return [p[1]]
     if t == "seq":
         return [n for it in p[1] for n in names_of(it)]
     if t == "ann":
@@ -241,6 +247,15 @@ def src_of(p, top=False):
         return "(%d < _ < %d)" % (p[1], p[2])
     if t == "cmp2":
         return "(%s < %s)" % (p[1], p[2])
+    # operator patterns with a LITERAL operand: the literal must be checked after the constructor is inverted
+    if t == "neglit":
+        return "-%d" % p[1] if top else "(-%d)" % p[1]
+    if t == "fraclit":
+        return "(%s / %d)" % (p[1], p[2])
+    if t == "conslit":
+        return "(%d .+ %s)" % (p[1], p[2])
+    if t == "snoclit":
+        return "(%s +. %d)" % (p[1], p[2])
     raise KeyError(p)
 
 
@@ -390,6 +405,28 @@ def match(p, v):
             return FAIL
         val = num_value(v)
         return {} if p[1] < val < p[2] else FAIL
+    if t == "neglit":
+        if ckind(v) == "v":
+            return NA
+        if not is_num(v) or v[0] == "c":
+            return FAIL if not is_num(v) else NA
+        return {} if ceq(v, cI(-p[1])) else FAIL
+    if t == "fraclit":
+        if ckind(v) == "i":
+            return {p[1]: v} if p[2] == 1 else FAIL
+        if ckind(v) == "q":
+            return {p[1]: cI(int(v[1]))} if int(v[2]) == p[2] else FAIL
+        return FAIL
+    if t in ("conslit", "snoclit"):
+        k = ckind(v)
+        if k in ("d", "S"):
+            return NA
+        es = elements(v)
+        if es is None or not es:
+            return FAIL
+        if t == "conslit":
+            return {p[2]: rebuild(k, es[1:])} if ceq(es[0], cI(p[1])) else FAIL
+        return {p[1]: rebuild(k, es[:-1])} if ceq(es[-1], cI(p[2])) else FAIL
     if t == "cmp2":
         es = elements(v)
         if ckind(v) == "d":
@@ -443,7 +480,9 @@ def pattern_pool(tier):
              ("struct", "P", [N(0), ("seq", [N(1), N(2)], "comma")]), ("struct", "P", [("_",), ("_",)])]
     # operator patterns
     pats += [("cons", "h", "t"), ("snoc", "t", "h"), ("plus", "n0", 1), ("plusl", 1, "n0"), ("plus", "n0", 5), ("times", "n0", 2), ("times", "n0", 3), ("times", "n0", 0),
-             ("neg", "n0"), ("frac", "n0", "n1"), ("cmphole", 1, 9), ("cmphole", 0, 2), ("cmp2", "n0", "n1")]
+             ("neg", "n0"), ("frac", "n0", "n1"), ("cmphole", 1, 9), ("cmphole", 0, 2), ("cmp2", "n0", "n1"),
+             ("neglit", 1), ("neglit", 5), ("fraclit", "n0", 2), ("fraclit", "n0", 1), ("fraclit", "n0", 4), ("conslit", 1, "t"), ("conslit", 5, "t"),
+             ("conslit", 9, "t"), ("snoclit", "t", 2), ("snoclit", "t", 9), ("seq", [N(0), ("neglit", 1)], "comma"), ("seq", [("fraclit", "n0", 2), N(1)], "comma")]
     return pats
 
 
@@ -640,7 +679,7 @@ def cases(tier, shard, nshards):
             if not mine():
                 continue
             for ctx in CONTEXTS:
-                if ctx == "assign" and (has_ann(pat) or pat[0] == "neg"):
+                if ctx == "assign" and (has_ann(pat) or pat[0] in ("neg", "neglit")):
                     continue     # `(x: T) = v` declares x; `(-x) = v` lexes as an operator-assignment
                 yield Case(program(ctx, pat, vsrc), {"k": "pat", "ctx": ctx, "pi": pi, "v": lab, "tier": tier}, pre=pre, opts={"compact": True, "cap": 8})
     # defaults: every target-list shape x every supplied count x binding context
